@@ -389,6 +389,13 @@ func (ufs *Ufs) Walk(req *SrvReq) {
 		p, ok := ufs.confine(path, tc.Wname[i])
 		var st os.FileInfo
 		var err error
+		if ok && (tc.Wname[i] == "." || tc.Wname[i] == "..") {
+			/* these two are resolved by name here, not by the system:
+			 * only a directory has them */
+			if dst, e := os.Stat(path); e != nil || !dst.IsDir() {
+				ok = false
+			}
+		}
 		if ok {
 			st, err = os.Lstat(p)
 		}
